@@ -473,7 +473,9 @@ def run(res, tier):
     tcp = []
     for u in ups:
         gs = [(f.nodes[c], t) for (c, t) in C.guards_of_block(f, P.pos_of(f, u)[0])]
-        udp = any(A.zero_test(cn, t) is not None and not A.zero_test(cn, t)[1] and any(x.get('n') == 'mtuSize' for x in A.zero_test(cn, t)[0].walk()) for (cn, t) in gs)
+        # packet mode: a dominating test says the maximum packet size (GetMaximumPacketSize(), usually held in a local) is non-zero
+        udp = any(A.zero_test(cn, t) is not None and not A.zero_test(cn, t)[1] and
+                  any(x.is_call() and (x.get('q') or '').endswith('::GetMaximumPacketSize') for x in A.walk_through_locals(f, A.zero_test(cn, t)[0])) for (cn, t) in gs)
         if not udp:
             tcp.append(u)
     okc = bool(tcp)
@@ -501,7 +503,13 @@ def run(res, tier):
                 what = None
                 if verb == 'Export':
                     v = A.strip_casts(c.args()[0])
-                    what = 'encoding' if (v.get('n') == 'encoding') else ('length' if any((y.get('q') or '').endswith('::GetNumBytes') for y in v.walk() if y.is_call()) else v.text(30))
+                    # the encoding word: a value whose definitions mention the MUSCLE_MESSAGE_ENCODING_* constants (whatever the local holding it is called)
+                    defs = [v]
+                    if v['k'] == 'DeclRefExpr' and v.get('d') is not None:
+                        defs += [x['ch'][0] for x in fn.walk() if x['k'] == 'VarDecl' and x.get('d') == v['d'] and x['ch']]
+                        defs += [x['ch'][1] for x in fn.walk() if x['k'] == 'BinaryOperator' and x.get('op') == '=' and A.strip_casts(x['ch'][0]).get('d') == v['d']]
+                    is_enc = any('MESSAGE_ENCODING' in (y.get('n') or '') for d_ in defs for y in d_.walk())
+                    what = 'encoding' if is_enc else ('length' if any((y.get('q') or '').endswith('::GetNumBytes') for y in v.walk() if y.is_call()) else v.text(30))
                 out[off] = what
         return out
     w = fx.fn1('muscle::MessageIOGateway::FlattenHeaderAndMessage')
